@@ -87,9 +87,38 @@ def main(tier):
                "vice": parse_vice(o.get("vice")), "hasVice": o.get("vice") is not None,
                "bpl": bpl, "move": move, "nlines": len(src.split("\n")),
                "lineOf": line_map(prog),
+               "hasSrcmap": True,
                "srcmap": [{"line": e["line"], "lo": e["lo"], "hi": e["hi"]} for e in o["srcmap"] if e["file"] == "main.asm"],
                "rows": parse_listing(o["listing"].get("main.asm", ""), bpl)}
         recs.append(V.clip_tree(rec))
+    # process level: the .lst files written by `mos build` (listing = true implies macro output attributed to the invocation)
+    import subprocess, shutil
+    mos = V.build_mos()
+    root = V.fresh_dir("C11-proc")
+    nproc = 0
+    for rec in [r for r in recs if len(r["prog"]) > 2][:60 if tier == "quick" else 600]:
+        prog, src, bpl, move = progs[rec["id"]]
+        d = os.path.join(root, "p%d" % rec["id"])
+        os.makedirs(d)
+        open(os.path.join(d, "mos.toml"), "w").write('[build]\nentry = "main.asm"\nlisting = true\n[formatting.listing]\nnum-bytes-per-line = %d\n' % bpl)
+        open(os.path.join(d, "main.asm"), "w").write(src)
+        p = subprocess.run([mos, "--no-color", "-e", "Short", "build"], cwd=d, capture_output=True, timeout=60)
+        lst = os.path.join(d, "target", "main.lst")
+        if p.returncode != 0 or not os.path.exists(lst):
+            rep.violations.append({"why": "mos build with listing = true failed or wrote no main.lst for a program that assembles in-process", "replay": {"program": src, "stdout": p.stdout.decode("utf-8", "replace")[-500:]}, "id": rec["id"]})
+            continue
+        # the command line build runs the same program with macro output attributed to the invocation: judge its rows with move = TRUE
+        o2 = dict(rec, id=1_000_000 + rec["id"], move=True, rows=parse_listing(open(lst).read(), bpl), hasVice=False, vice=[])
+        if not move:
+            # the source map recorded in-process belongs to the other attribution mode: re-derive nothing here, compare rows only
+            o2["srcmap"] = []
+            o2["hasSrcmap"] = False
+        recs.append(o2)
+        progs[o2["id"]] = progs[rec["id"]]
+        omap[o2["id"]] = {"listing": {"main.asm": open(lst).read()}, "srcmap": None}
+        nproc += 1
+    shutil.rmtree(root, ignore_errors=True)
+    rep.cov["lst_files_from_mos_build"] = nproc
     V.log("[C11] %d programs, %d built and listed" % (len(cases), nok))
     if nok < len(cases) // 10:
         raise V.ToolError("too few generated programs build (%d of %d)" % (nok, len(cases)))
